@@ -104,6 +104,8 @@ def _in_fuzzylite(tb) -> str | None:
     frames = traceback.extract_tb(tb)
     pkg = os.path.join(os.path.realpath(env.REPO), "fuzzylite") + os.sep
     for fr in reversed(frames):
+        if not os.path.isabs(fr.filename):
+            continue  # compiled third-party module reporting a relative source path (eg, black: "src/black/...")
         fn = os.path.realpath(fr.filename)
         if fn.startswith(pkg):
             return f"{os.path.basename(fn)}:{fr.name}"
